@@ -557,6 +557,11 @@ def check(pid, tier, replay=None):
             log("driver %s: BUILD FAILED" % drv["name"])
             continue
         rcd, dout, lines, dt = run_driver(pid, drv, tier, seed, replay=replay)
+        if rcd in (-9, 137) and not any(l.get("go_fail") for l in lines):
+            # killed from outside (the kernel's OOM killer under memory pressure): an infrastructure outcome — once more
+            log("driver %s: killed from outside (rc %d), running it once more" % (drv["name"], rcd))
+            time.sleep(15)
+            rcd, dout, lines, dt = run_driver(pid, drv, tier, seed, replay=replay)
         info = {"driver": drv["name"], "pkg": drv["pkg"], "cases": len(lines), "wall_s": round(dt, 1), "exit": rcd}
         drv_info.append(info)
         log("driver %s: %d cases in %.1fs (exit %d)" % (drv["name"], len(lines), dt, rcd))
